@@ -43,8 +43,15 @@ def _worker(handler_path, taskq, resq, wid, timeout, quiet):
             resq.put(("fatal", wid, traceback.format_exc()))
             return
         signal.signal(signal.SIGALRM, _alarm)
+        parent = os.getppid()
         while True:
-            item = taskq.get()
+            # a worker whose run was killed must not go on computing
+            if os.getppid() != parent:
+                os._exit(3)
+            try:
+                item = taskq.get(timeout=30)
+            except Exception:
+                continue
             if item is None:
                 break
             idx, task = item
